@@ -246,22 +246,29 @@ func Nitro(wdt float64, subd int, zeit int, g *GlobalVarsMain, l *NitroSharedVar
 		var NFOSUM, NAOSUM, nmifosum, nmiaosum, CSUM float64
 		if g.EINT[g.NTIL.Index] > 0 {
 			mixtief := math.Round(g.EINT[g.NTIL.Index] / g.DZ.Num)
+			// the mineralised-amount counters exist only for the top layers: they are mixed over the
+			// layers they have, with their own divisor, so that their sums are preserved at any depth
+			counterLayers := min(int(mixtief), len(g.MINFOS))
 
 			layerList := make(map[string]interface{})
 			for z := 0; z < int(mixtief); z++ {
 				// Vollstaendige Durchmischung bis Bearbeitungstiefe
 				NFOSUM = NFOSUM + g.NFOS[z]
 				NAOSUM = NAOSUM + g.NAOS[z]
-				nmifosum = nmifosum + g.MINFOS[z]
-				nmiaosum = nmiaosum + g.MINAOS[z]
+				if z < counterLayers {
+					nmifosum = nmifosum + g.MINFOS[z]
+					nmiaosum = nmiaosum + g.MINAOS[z]
+				}
 				CSUM = CSUM + g.C1[z]
 			}
 			if g.TILART[g.NTIL.Index] == 1 {
 				for z := 0; z < int(mixtief); z++ {
 					g.NFOS[z] = NFOSUM / mixtief
 					g.NAOS[z] = NAOSUM / mixtief
-					g.MINFOS[z] = nmifosum / mixtief
-					g.MINAOS[z] = nmiaosum / mixtief
+					if z < counterLayers {
+						g.MINFOS[z] = nmifosum / float64(counterLayers)
+						g.MINAOS[z] = nmiaosum / float64(counterLayers)
+					}
 					g.C1[z] = CSUM / mixtief
 					if g.C1[z] < 0 {
 						g.C1[z] = 0
